@@ -1,4 +1,6 @@
 import Invoke.Lemmas.ProgramParse
+import Invoke.Lemmas.ProgramPlacementB
+import Invoke.Lemmas.SpellCheck
 import Invoke.Generated.Program
 /-! # C18 — core options mean the same anywhere; task tokens and the remainder stay intact
 
@@ -145,6 +147,95 @@ theorem shadowing_value_flag_wins_partial (m : M) (c : Ctx) (tok : Tok) (i : Nat
     ∃ m', handle m tok = .ok m' ∧ m'.initial = m.initial ∧ m'.cur = m.cur ∧ m'.flag = some (.cur, i) :=
   ⟨_, shadow_value_in_task m c tok i a hst hci hc hfl hf ha ht, rfl, rfl, rfl⟩
 
+/-! ## Placement of a core option: WHOLE command lines (C01 item language for the task arguments)
+
+`Call`, `Item`, `ChainOK` are the C01 notions (`Lemmas/Spell*.lean`): a chain of task calls, each spelled by any admissible
+items (spaced / `=` / glued value flags, toggles, inverse flags, combined short blocks, positionals, bare optional-value
+flags) in any order.  `argvWithCore k pre post ctoks calls2` is the command line
+`k.tname :: pre… ++ ctoks ++ post… ++ calls2…`: the core item `ctoks` sits between two items of the FIRST call.
+
+EXCLUDED POINT, explicit as hypothesis `hpre : endsBare false pre = false`: the core item does not come directly after a
+bare optional-value flag of the task (documented ambiguity) — and, since core optional-value flags (`--list`, `--help`)
+are not core items in the sense of `CoreStep`, not after one of those either
+(`core_optional_then_core_flag_counterexample`). -/
+
+/-- PLACEMENT, BOOLEAN CORE FLAG, WHOLE ARGV (partial2).  For every chain of task calls `k :: calls2` admissible in the
+    sense of C01, every split `pre ++ post` of the first call's items and every unsplit Boolean core flag `tok`
+    (`--echo`, `-e`, …; not `--help`) that the task does not declare: the command line with `tok` between `pre` and
+    `post` and the command line with `tok` before all tasks both parse, deliver exactly the same task contexts (those
+    of the chain without the flag), the same observable core values (`Ctx.view`: declaration + value of every core
+    argument) and hence the same configuration overrides.  Holds with positionals of the task still missing at the
+    insertion point (DESIGN §4 #27).
+    Still missing for the full statement: the flag inside a LATER call than the first, the combined short block and the
+    `=`/glued spellings of value flags (they go through `presplit`). -/
+theorem core_flag_placement_invariant_partial2 (ic : Ctx) (reg : List Ctx) (k : Call) (pre post : List Item)
+    (calls2 : List Call) (tok : Tok) (i : Nat) (a a' : Arg)
+    (hk : k.items = pre ++ post) (hok : ChainOK (some ic) reg (some ic) (k :: calls2))
+    (hpre : endsBare false pre = false)
+    (hun : Unsplit tok) (hcf : assoc? tok k.ctx.flags = none) (hcinv : assoc? tok k.ctx.inverse = none)
+    (hl : reg.find? (fun x => x.name = some tok || x.aliases.contains tok) = none)
+    (hf : assoc? tok ic.flags = some i) (ha : ic.args[i]? = some a) (hh : a.spec.names.headD [] ≠ "help".toList)
+    (ht : a.takesValue = false) (hkl : a.spec.kind ≠ .list) (hfresh : a.gotValue = false)
+    (hs : a.setValue (.b true) = .ok a') (hpos : ic.positional = [])
+    (hbody : ∀ t ∈ argvWithCore k pre post [tok] calls2, t ≠ ['-', '-']) :
+    ∃ rA rB, programParse ic reg (argvWithCore k pre post [tok] calls2) = .ok rA ∧
+      programParse ic reg (tok :: (k :: calls2).flatMap Call.toks) = .ok rB ∧
+      rA.core.view = rB.core.view ∧ overrides rA.core = overrides rB.core ∧
+      rA.tasks = (k :: calls2).map Call.result ∧ rB.tasks = rA.tasks ∧ rA.remainder = rB.remainder := by
+  obtain ⟨s1, s2, s3⟩ := Arg.setValue_settled a a' (.b true) true (by simp) hs
+  have htab := foldl_apply_tables pre k.ctx
+  have hcore : CoreStep ic (ic.setArg i a') reg (pre.foldl Item.apply k.ctx) [tok] :=
+    coreStep_bool ic reg _ tok i a a' hun (by rw [htab.1]; exact hcf) (by rw [htab.2]; exact hcinv) hl hf ha hh ht hs
+  have hcore0 : CoreStep0 ic (ic.setArg i a') [tok] := coreStep0_bool ic tok i a a' hun hf ha ht hs
+  have hmiss' : (ic.setArg i a').missingPositional = [] := by
+    simp [Ctx.missingPositional, Ctx.setArg, hpos]
+  obtain ⟨hA, hB⟩ := program_with_core ic (ic.setArg i a') reg k pre post calls2 [tok] rfl rfl hmiss' hk hok hpre hcore hcore0 hbody
+  have hga' : a'.gotValue = true := by
+    have : ¬ a'.spec.kind = .list := by rw [s1]; exact hkl
+    simp [Arg.gotValue, this, s3]
+  have hview := updateCore_view ic i a a' ha s1 hfresh hga' s3
+  exact ⟨_, _, hA, hB, hview, overrides_view _ _ hview, rfl, rfl, rfl⟩
+
+/-- PLACEMENT, VALUE-TAKING CORE FLAG IN SPACED FORM, WHOLE ARGV (partial2): `--command-timeout 5`, `-T 5`, `--hide both`
+    between any two items of the first call mean the same as before all tasks.  The value must not be a flag of the
+    task or of the core context; it may be flag-like otherwise (`-T -5`). -/
+theorem core_value_flag_placement_partial2 (ic : Ctx) (reg : List Ctx) (k : Call) (pre post : List Item)
+    (calls2 : List Call) (tok v : Tok) (i : Nat) (a a' : Arg)
+    (hk : k.items = pre ++ post) (hok : ChainOK (some ic) reg (some ic) (k :: calls2))
+    (hpre : endsBare false pre = false)
+    (hun : Unsplit tok) (hcf : assoc? tok k.ctx.flags = none) (hcinv : assoc? tok k.ctx.inverse = none)
+    (hl : reg.find? (fun x => x.name = some tok || x.aliases.contains tok) = none)
+    (hvf : assoc? v k.ctx.flags = none) (hvinv : assoc? v k.ctx.inverse = none)
+    (hvf0 : assoc? v ic.flags = none) (hvinv0 : assoc? v ic.inverse = none)
+    (hf : assoc? tok ic.flags = some i) (ha : ic.args[i]? = some a) (hh : a.spec.names.headD [] ≠ "help".toList)
+    (ht : a.takesValue = true) (hr0 : a.raw = none) (ho : a.spec.optional = false) (hkl : a.spec.kind ≠ .list)
+    (hfresh : a.gotValue = false) (hs : a.setValue (.s v) = .ok a') (hpos : ic.positional = [])
+    (hbody : ∀ t ∈ argvWithCore k pre post [tok, v] calls2, t ≠ ['-', '-']) :
+    ∃ rA rB, programParse ic reg (argvWithCore k pre post [tok, v] calls2) = .ok rA ∧
+      programParse ic reg (tok :: v :: (k :: calls2).flatMap Call.toks) = .ok rB ∧
+      rA.core.view = rB.core.view ∧ overrides rA.core = overrides rB.core ∧
+      rA.tasks = (k :: calls2).map Call.result ∧ rB.tasks = rA.tasks ∧ rA.remainder = rB.remainder := by
+  obtain ⟨s1, s2, s3⟩ := Arg.setValue_settled a a' (.s v) true (by simp) hs
+  have htab := foldl_apply_tables pre k.ctx
+  have hcore : CoreStep ic (ic.setArg i a') reg (pre.foldl Item.apply k.ctx) [tok, v] :=
+    coreStep_value_spaced ic reg _ tok v i a a' hun (by rw [htab.1]; exact hcf) (by rw [htab.2]; exact hcinv) hl
+      (by rw [htab.1]; exact hvf) (by rw [htab.2]; exact hvinv) hf ha hh ht hr0 ho hs
+  have hcore0 : CoreStep0 ic (ic.setArg i a') [tok, v] := coreStep0_value_spaced ic tok v i a a' hun hvf0 hvinv0 hf ha ht hr0 ho hs
+  have hmiss' : (ic.setArg i a').missingPositional = [] := by
+    simp [Ctx.missingPositional, Ctx.setArg, hpos]
+  obtain ⟨hA, hB⟩ := program_with_core ic (ic.setArg i a') reg k pre post calls2 [tok, v] rfl rfl hmiss' hk hok hpre hcore hcore0 hbody
+  have hga' : a'.gotValue = true := by
+    have : ¬ a'.spec.kind = .list := by rw [s1]; exact hkl
+    simp [Arg.gotValue, this, s3]
+  have hview := updateCore_view ic i a a' ha s1 hfresh hga' s3
+  exact ⟨_, _, hA, hB, hview, overrides_view _ _ hview, rfl, rfl, rfl⟩
+
+/-- THE ERASURE LEMMA behind both: once the machine's current flag is settled, it plays no role in what the parser
+    does with any further tokens — two machines that differ only in such a flag stay in lockstep. -/
+theorem settled_flag_is_inert (ts : List Tok) (m : M) (f : Option (Where × Nat)) (g : Bool)
+    (hm : Inert m) (hn : Inert (m.reflag f g)) : RelR (runToks m ts) (runToks (m.reflag f g) ts) :=
+  runToks_rel ts m _ (Or.inr ⟨f, g, rfl, hm, hn⟩)
+
 /-! ## The core-argument table regenerated from the repository -/
 
 def kindOfString (s : String) : Kind :=
@@ -265,5 +356,45 @@ example : ∃ i a a', assoc? "-v".toList (c18Reg.headD (Ctx.empty none)).flags =
   ⟨1, _, _, by decide, rfl, by decide, rfl⟩
 /-- hypothesis of `remainder_verbatim` -/
 example : ['-', '-'] ∉ argvOf ["-e", "t1", "--flag"] := by decide
+
+/-! ### the whole-argv placement theorems applied (non-vacuity) -/
+
+/-- `t2 val -v` then `t1 --name zed` in the C01 item language -/
+def plCall : Call := { tname := "t2".toList, ctx := c18Reg.headD (Ctx.empty none),
+                       items := [.pos "val".toList 0, .toggle "-v".toList 1] }
+def plCall2 : Call := { tname := "t1".toList, ctx := c18Reg.getD 1 (Ctx.empty none),
+                        items := [.spaced "--name".toList "zed".toList 1] }
+
+/-- the chain is admissible in the sense of C01 -/
+example : ChainOK (some coreCtx) c18Reg (some coreCtx) [plCall, plCall2] := chainOKb_sound _ (by decide)
+
+/-- `core_flag_placement_invariant_partial2` applied with the real core table: `t2 -e val -v t1 --name zed`
+    (core flag BEFORE the still missing positional, #27) vs `-e t2 val -v t1 --name zed` -/
+example : ∃ rA rB,
+    programParse coreCtx c18Reg (argvOf ["t2", "-e", "val", "-v", "t1", "--name", "zed"]) = .ok rA ∧
+    programParse coreCtx c18Reg (argvOf ["-e", "t2", "val", "-v", "t1", "--name", "zed"]) = .ok rB ∧
+    overrides rA.core = overrides rB.core ∧ rB.tasks = rA.tasks :=
+  have h := core_flag_placement_invariant_partial2 coreCtx c18Reg plCall [] plCall.items [plCall2] "-e".toList 5
+    (coreCtx.args.getD 5 (Arg.init { names := [] })) _ rfl (chainOKb_sound _ (by decide)) rfl (unsplitB_sound (by decide))
+    (by decide) (by decide) (by decide) (by decide) (by decide) (by decide) (by decide) (by decide) (by decide) rfl (by decide)
+    (noSentinelB_sound (by decide))
+  let ⟨rA, rB, h1, h2, _, h4, _, h6, _⟩ := h
+  ⟨rA, rB, h1, h2, h4, h6⟩
+
+/-- `core_value_flag_placement_partial2` applied: `t2 val -T 5 -v` vs `-T 5 t2 val -v` -/
+example : ∃ rA rB,
+    programParse coreCtx c18Reg (argvOf ["t2", "val", "-T", "5", "-v"]) = .ok rA ∧
+    programParse coreCtx c18Reg (argvOf ["-T", "5", "t2", "val", "-v"]) = .ok rB ∧
+    overrides rA.core = overrides rB.core ∧ rB.tasks = rA.tasks :=
+  have h := core_value_flag_placement_partial2 coreCtx c18Reg plCall [.pos "val".toList 0] [.toggle "-v".toList 1] []
+    "-T".toList "5".toList 0 (coreCtx.args.getD 0 (Arg.init { names := [] })) _ rfl (chainOKb_sound _ (by decide)) rfl
+    (unsplitB_sound (by decide)) (by decide) (by decide) (by decide) (by decide) (by decide) (by decide) (by decide)
+    (by decide) (by decide) (by decide) (by decide) (by decide) (by decide) (by decide) (by decide) (by decide) rfl (by decide)
+    (noSentinelB_sound (by decide))
+  let ⟨rA, rB, h1, h2, _, h4, _, h6, _⟩ := h
+  ⟨rA, rB, h1, h2, h4, h6⟩
+
+/-- hypotheses of `settled_flag_is_inert`: a machine whose flag is a Boolean core flag that has been set -/
+example : Inert ((M.start (some coreCtx) c18Reg false).reflag none false) := inert_noflag _ rfl
 
 end Inv
